@@ -556,7 +556,7 @@ func c03ExhaustivePair(t *T) {
 // ---------------------------------------------------------------------------
 
 func runC03B(e *Env) {
-	e.Rule = "free-running stress under the race detector: generated router shapes, 16..64 goroutines issuing a mix of requests without synchronisation; every response compared with the solo outcome"
+	e.Rule = "free-running stress under the race detector: generated router shapes, 16..64 goroutines issuing a mix of requests without synchronisation; every response compared with the solo outcome Prologues: recovered panics and internal re-dispatches (HandleContext). Background goroutines keep a Copy() of the context (data and error list) beyond their request; custom not-allowed handlers record and edit the allowed-methods list they are given; every other shape has a route behind pkg/handlers.Timeout whose handler overruns the deadline."
 	shapes := e.N(40, 500)
 	G := int(e.N(16, 48))
 	M := int(e.N(250, 1200))
@@ -745,7 +745,7 @@ func runC03B(e *Env) {
 // ---------------------------------------------------------------------------
 
 func runC03(e *Env) {
-	e.Rule = "A: handler-boundary scheduler - generated router shapes (global middleware added by 1..4 Use calls, group/route middleware, custom/default NotFound/NotAllowed, cache off/1/2/3/1000, with/without an OnPanic hook and a prologue of recovered panics) x 2..4 requests (same dynamic route with different ids, different routes, 404, 405, HEAD->GET, repeats) x chosen interleavings at handler boundaries (random, park-early/resume-late, round robin; ALL interleavings for request pairs with <= 4 points each); each request's trace/params/response must equal its solo run on a fresh identical router and in-flight requests must hold distinct contexts. B: the same shapes under free-running stress in a -race build (16..48 goroutines), race reports parsed and attributed, responses compared with solo outcomes, cache invariant at quiescence, process-fatal errors reported with the journal. C: linearizability of concurrent cache histories (porcupine). Non-trivial: a schedule with >= 2 requests in flight at once; distinct by (shape, requests, schedule)."
+	e.Rule = "A: handler-boundary scheduler - generated router shapes (global middleware added by 1..4 Use calls, group/route middleware, custom/default NotFound/NotAllowed, cache off/1/2/3/1000, with/without an OnPanic hook and a prologue of recovered panics) x 2..4 requests (same dynamic route with different ids, different routes, 404, 405, HEAD->GET, repeats) x chosen interleavings at handler boundaries (random, park-early/resume-late, round robin; ALL interleavings for request pairs with <= 4 points each); each request's trace/params/response must equal its solo run on a fresh identical router and in-flight requests must hold distinct contexts. B: the same shapes under free-running stress in a -race build (16..48 goroutines), race reports parsed and attributed, responses compared with solo outcomes, cache invariant at quiescence, process-fatal errors reported with the journal. C: linearizability of concurrent cache histories (porcupine). Non-trivial: a schedule with >= 2 requests in flight at once; distinct by (shape, requests, schedule). Prologues: recovered panics and internal re-dispatches; custom not-allowed handlers record and edit the allowed-methods list they are given."
 	e.Assumptions = []string{
 		"interleavings inside library code at instruction granularity are reached only as far as the Go scheduler and 16 cores produce them (monitor B); monitor A controls interleavings at handler boundaries exactly",
 		"the race detector reports races on executed access pairs only",
